@@ -1,7 +1,10 @@
 /-
   C14 — credential extraction returns every stored role and its exact verifier.
   Property theorems only; helper lemmas are in Proofs/RowsAuth.lean, Proofs/RowsFile.lean.
-  (The CLI rendering `-passwords` belongs to area `cluster`.)
+  (ExtractPasswords / RemoteClient.Credentials: Props/C14Paths.lean.  The CLI rendering `-passwords` belongs to area
+  `cluster`.  pg_authid is a mapped catalog: the tool reads the fixed path global/1260, which is its file until the first
+  VACUUM FULL / CLUSTER of pg_authid rewrites it under a new filenode recorded in global/pg_filenode.map — outside the
+  property's quantifier "for all pg_authid contents", not modelled.)
 -/
 import PgVerif.Proofs.RowsAuth
 namespace PgVerif.Props.C14
@@ -17,35 +20,40 @@ theorem C14_layout (r : Role) (h : r.WF) (m : Nat) (hdr : TupleHeader) :
   role_data r m hdr (by have := h.2.2.1; omega)
 
 /-- **One role version.**  For every well-formed role (name 1..63 NUL-free bytes, every combination of the seven
-booleans, any connection limit, password NULL or any non-empty text — short or 4-byte header —, valid-until
+booleans, any connection limit, password NULL or any non-empty text stored the way PostgreSQL stores a catalog text:
+with a 1-byte header when it is at most 126 bytes long, with a 4-byte header otherwise (`Spec.textDatum`) —, valid-until
 NULL or set, hence with or without null bitmap) and any tuple header (live or dead version), the per-tuple
 walk reports the role's oid, name, superuser and login flags and exactly the stored verifier, and the empty
-string when the password is NULL. -/
+string when the password is NULL.  (Outside `Spec.Role`: a 4-byte header on a short verifier, and an inline-compressed
+or out-of-line rolpassword — PostgreSQL compresses / toasts only tuples above ~2 kB, a pg_authid tuple with a verifier of
+up to 400 bytes stays below 600; on such crafted data the tool returns the compressed bytes / no password.) -/
 theorem C14_role (r : Role) (h : r.WF) (m : Nat) (hdr : TupleHeader) :
     authOne (rowTuple hdr authidCols (roleRow r m)) = .ok (some (authView r)) :=
   authOne_role r h m hdr
 
 /-- **Every stored role, live or dead, on any page.**  For every well-formed heap file (any number of pages,
 zero pages, line pointers in any state and order, trailing partial block) whose stored tuples are the role
-versions `vers` (role, infomask) in scan order: ParsePGAuthID returns exactly one entry per version, in that
-order, each as in `C14_role` — whatever the versions' visibility bits are. -/
-theorem C14_roles (bs : List Block) (tail : Bytes) (vers : List (Role × Nat))
+versions `vers` in scan order — each with ARBITRARY header fields `v.1` (xmin: 1 for bootstrap roles, ≥ 3 for created
+ones; xmax, t_ctid → successor and HEAP_HOT_UPDATED | HEAP_KEYS_UPDATED for the dead version ALTER ROLE leaves behind;
+HEAP_ONLY_TUPLE for its successor) and arbitrary t_infomask `v.2.2` —: ParsePGAuthID returns exactly one entry per
+version, in that order, each as in `C14_role`. -/
+theorem C14_roles (bs : List Block) (tail : Bytes) (vers : List (HdrFields × Role × Nat))
     (hb : ∀ b ∈ bs, b.WF) (ht : tail.length < 8192)
-    (hvers : fileTuples bs = vers.map fun v => encRole v.1 v.2)
-    (hwf : ∀ v ∈ vers, v.1.WF ∧ v.2 < 65536) :
-    parsePGAuthID (encHeap bs tail) = .ok (vers.map fun v => authView v.1) := by
+    (hvers : fileTuples bs = vers.map fun v => encRoleH v.1 v.2.1 v.2.2)
+    (hwf : ∀ v ∈ vers, v.2.1.WF ∧ v.2.2 < 65536) :
+    parsePGAuthID (encHeap bs tail) = .ok (vers.map fun v => authView v.2.1) := by
   unfold parsePGAuthID
   rw [collect_scan authOne bs tail false hb ht, List.filter_eq_self.mpr (fun _ _ => by simp), hvers, List.map_map,
-    ← collectM_map (mtuple ∘ fun v : Role × Nat => encRole v.1 v.2) authOne vers]
-  apply collectM_all_some (fun v : Role × Nat => authOne ((mtuple ∘ fun v : Role × Nat => encRole v.1 v.2) v))
-    (fun v : Role × Nat => authView v.1) vers
+    ← collectM_map (mtuple ∘ fun v : HdrFields × Role × Nat => encRoleH v.1 v.2.1 v.2.2) authOne vers]
+  apply collectM_all_some (fun v : HdrFields × Role × Nat => authOne ((mtuple ∘ fun v : HdrFields × Role × Nat => encRoleH v.1 v.2.1 v.2.2) v))
+    (fun v : HdrFields × Role × Nat => authView v.2.1) vers
   intro v hv
   obtain ⟨hr, hm⟩ := hwf v hv
-  simp only [Function.comp, encRole]
-  have := mtuple_formTuple authidCols (roleRow v.1 v.2) (roleRow_WF v.1 hr v.2 hm)
+  simp only [Function.comp, encRoleH]
+  have := mtuple_formTupleH v.1 authidCols (roleRow v.2.1 v.2.2) (roleRow_WF v.2.1 hr v.2.2 hm)
   simp only [roleRow] at this
   rw [this]
-  exact authOne_role v.1 hr v.2 _
+  exact authOne_role v.2.1 hr v.2.2 _
 
 /-- **No password reported exactly for NULL passwords.**  (Stored passwords are never empty: PostgreSQL turns
 `PASSWORD ''` into NULL.) -/
@@ -59,17 +67,26 @@ theorem C14_null (r : Role) (h : r.WF) : (authView r).password = [] ↔ r.passwo
     simp only [Option.getD_some, reduceCtorEq, iff_false]
     intro h0; rw [h0] at this; simp at this
 
-/-- **The file plumbing adds nothing.**  ExtractPasswordsFromFiles asks its reader for exactly "global/1260",
-passes a read error through, and otherwise returns ParsePGAuthID of the bytes. -/
-theorem C14_paths (reader : Bytes → Option Bytes) :
-    extractPasswordsFromFiles reader =
-      match reader (strBytes "global/1260") with
-      | none => .ok none
-      | some data => (parsePGAuthID data).map some := by
+/-- **Through the file plumbing.**  ExtractPasswordsFromFiles with a reader that serves, under the path "global/1260",
+a well-formed pg_authid heap storing the role versions `vers` (as in `C14_roles`) returns exactly one entry per
+version with its exact verifier; the reader is asked for no other path (the result is a function of the reader's
+answer for that one path), and … -/
+theorem C14_paths (reader : Bytes → Option Bytes) (bs : List Block) (tail : Bytes) (vers : List (HdrFields × Role × Nat))
+    (hb : ∀ b ∈ bs, b.WF) (ht : tail.length < 8192)
+    (hvers : fileTuples bs = vers.map fun v => encRoleH v.1 v.2.1 v.2.2)
+    (hwf : ∀ v ∈ vers, v.2.1.WF ∧ v.2.2 < 65536)
+    (hfile : reader (strBytes "global/1260") = some (encHeap bs tail)) :
+    extractPasswordsFromFiles reader = .ok (some (vers.map fun v => authView v.2.1)) := by
   unfold extractPasswordsFromFiles
-  cases reader (strBytes "global/1260") with
-  | none => rfl
-  | some data => cases parsePGAuthID data <;> rfl
+  rw [hfile]
+  simp only [C14_roles bs tail vers hb ht hvers hwf, ok_bind, pure_eq_ok]
+
+/-- … a read error of that path is passed through as the error (no entries are invented). -/
+theorem C14_paths_error (reader : Bytes → Option Bytes) (h : reader (strBytes "global/1260") = none) :
+    extractPasswordsFromFiles reader = .ok none := by
+  unfold extractPasswordsFromFiles
+  rw [h]
+  rfl
 
 /-! ### non-vacuity -/
 
@@ -83,5 +100,13 @@ example : exRole.WF :=
   ⟨by decide, by decide, by decide, by decide, by decide,
    fun p hp => by cases hp; decide, fun v hv => by cases hv⟩
 example : authView exRole = ⟨10, [112, 103], List.replicate 35 97, true, true⟩ := rfl
+
+/-- the dead version ALTER ROLE left of that role (the reviewer's "short-dead-realhdr"): xmin 700, xmax 701,
+t_ctid → (0,2), t_infomask2 = 0x600C, t_infomask = 0x0502 (+ HASNULL) — and the bootstrap version with xmin 1 -/
+def exDeadHdr : HdrFields := { xmin := 700, xmax := 701, ctid := [0, 0, 0, 0, 2, 0], flags2 := 12 }
+example : exDeadHdr.WF := by decide
+example : (encRoleH exDeadHdr exRole 0x0500).xmin = 700 ∧ (encRoleH exDeadHdr exRole 0x0500).xmax = 701 ∧
+    (encRoleH exDeadHdr exRole 0x0500).infomask2 = 0x600C ∧ (encRoleH exDeadHdr exRole 0x0500).infomask = 0x0503 ∧
+    (encRoleH { xmin := 1 } exRole 0x0900).xmin = 1 := by decide
 
 end PgVerif.Props.C14
